@@ -80,7 +80,14 @@ impl<'a> Run<'a> {
         if let Some(mut t) = self.twin.take() {
             let rt = t.process_incoming_message_with_time(m.clone(), time(self.w.clock));
             self.ctx.eval();
-            if rt.is_ok() != ok {
+            if what == "late-application" && self.wrote_since_twin && !ok && rt.is_ok() {
+                // the copy shares B's store and never writes: every epoch it entered since the
+                // reload is still un-flushed in memory, while B's writes have trimmed the store to
+                // the retention limit. Retaining more than B is what the retention rule (C19)
+                // prescribes for a member that has not written.
+                self.ctx.outcome("lockstep:unwritten-copy-still-retains-the-epoch(expected)");
+                self.twin = Some(t);
+            } else if rt.is_ok() != ok {
                 self.sig(format!("lockstep-acceptance-differs|{what}"), format!("B and its reloaded copy disagree on accepting a {what}: original ok={ok}, reloaded ok={}", rt.is_ok()));
             } else if ok {
                 let a = effective(self.w.g(B), B as u32);
